@@ -87,7 +87,7 @@ def make_stubs(script, tree):
 
         def _report(self, k):
             for l in list(self._listeners):
-                l.syntaxError(self, None, script['lines'][k], script['cols'][k], script['msgs'][k], None)
+                l.syntaxError(self, None, script['lines'][k], script['cols'][k], script['msgs'][k], script['excs'][k]())
 
     class StubLexer(StubRecognizer):
         def __init__(self, inp=None, *a, **k):
@@ -155,6 +155,33 @@ def make_stubs(script, tree):
     return StubLexer, StubStream, StubParser
 
 
+class _CharStream:
+    """input stream as seen from an exception object: the next character is EOF or not"""
+
+    def __init__(self, at_eof):
+        self.at_eof = at_eof
+        self.index = 5
+
+    def LA(self, k):
+        return Token.EOF if self.at_eof else ord(')')
+
+    def getText(self, a, b):
+        return "'x"
+
+
+def make_exc(lexer_error, present, at_eof):
+    """the exception object ANTLR hands to syntaxError: None (inline repairs) or a recognition exception whose
+    input is at EOF or not (e.g. an unterminated quoted atom fails at EOF)"""
+    from antlr4.error.Errors import LexerNoViableAltException, InputMismatchException, RecognitionException
+    if not present:
+        return None
+    stream = _CharStream(True if at_eof else False)
+    if lexer_error:
+        return LexerNoViableAltException(None, stream, 3, None)
+    e = RecognitionException(message='mismatched input', recognizer=None, input=stream, ctx=None)
+    return e
+
+
 def parse_valid():
     from yldprolog.prologLexer import prologLexer
     from yldprolog.prologParser import prologParser
@@ -168,14 +195,16 @@ def make_body_a(info):
     expected = compiler.compile_prolog_from_string(VALID_TEXT, Ctx)
     spec = [('nlex', 'int', '0 <= nlex <= 2'), ('npar', 'int', '0 <= npar <= 2'), ('eof', 'bool', None), ('via_string', 'bool', None)]
     for k in range(4):
-        spec += [('line%d' % k, 'int', '1 <= line%d' % k), ('col%d' % k, 'int', '0 <= col%d' % k), ('msg%d' % k, 'str', 'len(msg%d) <= 3' % k)]
+        spec += [('line%d' % k, 'int', '1 <= line%d' % k), ('col%d' % k, 'int', '0 <= col%d' % k), ('msg%d' % k, 'str', 'len(msg%d) <= 3' % k),
+                 ('exc%d' % k, 'bool', None), ('ateof%d' % k, 'bool', None)]
     ix = ch.index_of(spec)
 
     def body(vals):
         from crosshair.tracers import is_tracing
         g = lambda k: vals[ix[k]]
         script = dict(nlex=g('nlex'), npar=g('npar'), eof=g('eof'), lines=[g('line%d' % k) for k in range(4)],
-                      cols=[g('col%d' % k) for k in range(4)], msgs=[g('msg%d' % k) for k in range(4)])
+                      cols=[g('col%d' % k) for k in range(4)], msgs=[g('msg%d' % k) for k in range(4)],
+                      excs=[(lambda k: (lambda: make_exc(k < 2, g('exc%d' % k), g('ateof%d' % k))))(k) for k in range(4)])
         SL, SS, SP = make_stubs(script, tree)
         saved = (compiler.prologLexer, compiler.CommonTokenStream, compiler.prologParser)
         compiler.prologLexer, compiler.CommonTokenStream, compiler.prologParser = SL, SS, SP
@@ -278,6 +307,13 @@ def edits(text, toks, rng, n_insert):
             pos = 0
         tok = rng.choice(pool)
         out.append(('insert', text[:pos] + ' ' + tok + ' ' + text[pos:]))
+    # every pool token at every clause boundary (start, end, after each full stop), with and without a separating blank
+    boundaries = [0, len(text)] + [b for (name, l, p), (a, b) in zip(toks, spans) if name == "'.'"]
+    for pos in sorted(set(boundaries)):
+        for tok in pool:
+            out.append(('insert-at-boundary', text[:pos] + ' ' + tok + ' ' + text[pos:]))
+            if pos == len(text):
+                out.append(('append', text + tok))
     return out
 
 
